@@ -68,6 +68,9 @@ class CopySuite(Suite):
         ok = True
         if r["res"] == "panic":
             return Verdict(False, False, "copy crashed: %s" % str(r.get("crash"))[-200:])
+        if r.get("snaperr"):
+            ok = False
+            notes.append("the destination root can no longer be listed as a directory: %s" % r["snaperr"])
         if impl.get("outside_changed"):
             ok = False
             notes.append("C14: something outside the destination root changed: %s" % impl["outside_changed"][:4])
